@@ -153,3 +153,79 @@ func hexVal(c byte) int {
 	}
 	return int(c-'A') + 10
 }
+
+// Verdicts of ChunkedStrict.
+const (
+	ChunkWellFormed  = iota // framed exactly as the format says: the stream carries Payload
+	ChunkMalformed          // not an aws-chunked stream (must be rejected)
+	ChunkUnspecified        // framing intact, but with something the statement does not judge
+)
+
+// ChunkedStrict parses an aws-chunked stream strictly:
+//
+//	stream = *( size ";chunk-signature=" 64OCTET CRLF data CRLF ) "0;chunk-signature=" 64OCTET CRLF CRLF
+//
+// with size = 1*15 hexadecimal digits (either case) and len(data) = size. It returns the
+// concatenated chunk data and a verdict. Left unspecified (the framing is positionally intact):
+// signature bytes that are not hexadecimal digits (the signature's value is not part of the
+// framing), and bytes after the terminating chunk.
+func ChunkedStrict(s []byte) (payload []byte, verdict int) {
+	pos := 0
+	odd := false
+	expect := func(lit string) bool {
+		if len(s)-pos < len(lit) || string(s[pos:pos+len(lit)]) != lit {
+			return false
+		}
+		pos += len(lit)
+		return true
+	}
+	for {
+		i := pos
+		for i < len(s) && isHex(s[i]) {
+			i++
+		}
+		if i == pos || i-pos > 15 {
+			return payload, ChunkMalformed
+		}
+		var n int64
+		for _, c := range s[pos:i] {
+			n = n*16 + int64(hexVal(c))
+		}
+		pos = i
+		if !expect(";chunk-signature=") {
+			return payload, ChunkMalformed
+		}
+		if len(s)-pos < 64 {
+			return payload, ChunkMalformed
+		}
+		for _, c := range s[pos : pos+64] {
+			if c == '\r' || c == '\n' {
+				return payload, ChunkMalformed
+			}
+			if !isHex(c) {
+				odd = true
+			}
+		}
+		pos += 64
+		if !expect("\r\n") {
+			return payload, ChunkMalformed
+		}
+		if n == 0 {
+			if !expect("\r\n") {
+				return payload, ChunkMalformed
+			}
+			if pos != len(s) || odd {
+				return payload, ChunkUnspecified
+			}
+			return payload, ChunkWellFormed
+		}
+		if int64(len(s)-pos) < n {
+			return payload, ChunkMalformed
+		}
+		payload = append(payload, s[pos:pos+int(n)]...)
+		pos += int(n)
+		if !expect("\r\n") {
+			return payload, ChunkMalformed
+		}
+	}
+}
